@@ -7,12 +7,20 @@ deletion, the intended model toggle and the intended ingestion preserve it.
 namespace Discret.Fts
 
 /-- the index and the rows of a site agree: row numbers and slots are unique, every index entry belongs
-    to a row of an indexed entity whose text has the word, and every word of such a row is indexed -/
+    to a row of an indexed entity whose text has the word, and every word of such a row is indexed, and such a row has a document record -/
 def SInv (s : Site) : Prop :=
   (s.rows.map (·.n)).Nodup ∧
   (∀ r1, r1 ∈ s.rows → ∀ r2, r2 ∈ s.rows → r1.slot = r2.slot → r1 = r2) ∧
   (∀ p, p ∈ s.idx → ∃ r, r ∈ s.rows ∧ r.slot = p.1 ∧ s.indexOn r.ent = true ∧ p.2 ∈ r.text) ∧
-  (∀ r, r ∈ s.rows → s.indexOn r.ent = true → ∀ w, w ∈ r.text → (r.slot, w) ∈ s.idx)
+  (∀ r, r ∈ s.rows → s.indexOn r.ent = true → ∀ w, w ∈ r.text → (r.slot, w) ∈ s.idx) ∧
+  (∀ r, r ∈ s.rows → s.indexOn r.ent = true → r.slot ∈ s.docs)
+
+/-- the agreement only reads the rows, the index, the document records and the flags -/
+theorem sinv_of_eq {s s' : Site} (h : SInv s) (hr : s'.rows = s.rows) (hi : s'.idx = s.idx)
+    (hd : s'.docs = s.docs) (hf : s'.indexOn = s.indexOn) : SInv s' := by
+  unfold SInv
+  rw [hr, hi, hd, hf]
+  exact h
 
 theorem foldl_max_ge (l : List Row) : ∀ (m : Nat), m ≤ l.foldl (fun m r => max m r.slot) m ∧
     ∀ r, r ∈ l → r.slot ≤ l.foldl (fun m r => max m r.slot) m := by
@@ -85,6 +93,9 @@ theorem mem_idxAdd {slot : Slot} {text : List Word} {idx : List (Slot × Word)} 
     · exact Or.inl h
     · exact Or.inr ⟨p.2, h2, by rw [← h1]⟩
 
+theorem mem_docDel {slot x : Slot} {docs : List Slot} : x ∈ docDel slot docs ↔ x ∈ docs ∧ x ≠ slot := by
+  simp [docDel, List.mem_filter]
+
 /-- **search = the rows whose text matches**, for an entity the engine indexes -/
 theorem search_eq_matching {s : Site} (h : SInv s) (e : Ent) (he : s.indexOn e = true) (t : Word) :
     search s e t = matching s e t := by
@@ -94,7 +105,7 @@ theorem search_eq_matching {s : Site} (h : SInv s) (e : Ent) (he : s.indexOn e =
   intro r hr
   by_cases hre : r.ent = e
   · simp only [hre, decide_true, Bool.true_and]
-    obtain ⟨_, h1, h2, h3⟩ := h
+    obtain ⟨_, h1, h2, h3, _⟩ := h
     apply Bool.eq_iff_iff.mpr
     simp only [List.contains_iff_mem]
     constructor
@@ -114,7 +125,7 @@ theorem nsearch_eq_nmatching {s : Site} (h : SInv s) (he : s.indexOn 0 = true) (
     nsearch s t = nmatching s t := by
   have key : ∀ c, c ∈ s.rows → c.ent = 0 → s.idx.contains (c.slot, t) = c.text.contains t := by
     intro c hc hce
-    obtain ⟨_, h1, h2, h3⟩ := h
+    obtain ⟨_, h1, h2, h3, _⟩ := h
     apply Bool.eq_iff_iff.mpr
     simp only [List.contains_iff_mem]
     constructor
@@ -162,10 +173,10 @@ theorem nodup_map_inj {l : List Row} (h : (l.map (·.n)).Nodup) {a b : Row} (ha 
 
 theorem writeInsert_inv {s : Site} (h : SInv s) (new : Row) (hn : ∀ r, r ∈ s.rows → r.n ≠ new.n) :
     SInv (writeInsert (s.indexOn new.ent) new s) := by
-  obtain ⟨h0, h1, h2, h3⟩ := h
+  obtain ⟨h0, h1, h2, h3, h4⟩ := h
   have hslot : ∀ r, r ∈ s.rows → r.slot ≠ nextSlot s.rows := fun r hr => Nat.ne_of_lt (slot_lt_nextSlot hr)
   unfold writeInsert
-  refine ⟨?_, ?_, ?_, ?_⟩
+  refine ⟨?_, ?_, ?_, ?_, ?_⟩
   · show ((s.rows ++ [{ new with slot := nextSlot s.rows }]).map Row.n).Nodup
     rw [List.map_append, List.nodup_append]
     refine ⟨h0, by simp, ?_⟩
@@ -204,12 +215,23 @@ theorem writeInsert_inv {s : Site} (h : SInv s) (new : Row) (hn : ∀ r, r ∈ s
       simp only at hon hw ⊢
       simp only [hon, ↓reduceIte]
       exact mem_idxAdd.mpr (Or.inr ⟨rfl, hw⟩)
+  · intro r hr hon
+    rcases List.mem_append.mp hr with a | a
+    · have := h4 r a hon
+      show r.slot ∈ (if s.indexOn new.ent = true then s.docs ++ [nextSlot s.rows] else s.docs)
+      split
+      · exact List.mem_append.mpr (Or.inl this)
+      · exact this
+    · rcases List.mem_singleton.mp a with rfl
+      simp only at hon ⊢
+      simp only [hon, ↓reduceIte]
+      exact List.mem_append.mpr (Or.inr List.mem_cons_self)
 
 theorem writeUpdate_inv {s : Site} (h : SInv s) (old new : Row) (ho : old ∈ s.rows)
     (hn : new.n = old.n) (he : new.ent = old.ent) (prev : Option (List Word))
     (hp : prev = some old.text ∨ (prev = none ∧ old.text = [])) :
     SInv (writeUpdate (s.indexOn old.ent) old new prev s) := by
-  obtain ⟨h0, h1, h2, h3⟩ := h
+  obtain ⟨h0, h1, h2, h3, h4⟩ := h
   -- rows other than `old` have another number and another slot
   have hother : ∀ r, r ∈ s.rows → r.n ≠ old.n → r.slot ≠ old.slot := by
     intro r hr hne hs
@@ -218,7 +240,7 @@ theorem writeUpdate_inv {s : Site} (h : SInv s) (old new : Row) (ho : old ∈ s.
     intro r hr hrn
     exact nodup_map_inj h0 hr ho hrn
   unfold writeUpdate
-  refine ⟨?_, ?_, ?_, ?_⟩
+  refine ⟨?_, ?_, ?_, ?_, ?_⟩
   · show ((eraseRow old.n s.rows ++ [{ new with slot := old.slot }]).map Row.n).Nodup
     rw [List.map_append, List.nodup_append]
     refine ⟨?_, by simp, ?_⟩
@@ -292,34 +314,68 @@ theorem writeUpdate_inv {s : Site} (h : SInv s) (old new : Row) (ho : old ∈ s.
       rw [he] at hon
       simp only [hon, ↓reduceIte]
       exact mem_idxAdd.mpr (Or.inr ⟨rfl, hw⟩)
+  · intro r hr hon
+    rcases List.mem_append.mp hr with a | a
+    · obtain ⟨hr', hne⟩ := mem_eraseRow.mp a
+      have hin := h4 r hr' hon
+      have hsl := hother r hr' hne
+      show r.slot ∈ (if s.indexOn old.ent = true then _ else s.docs)
+      split
+      · apply List.mem_append.mpr
+        left
+        cases prev with
+        | none => exact hin
+        | some pt => exact mem_docDel.mpr ⟨hin, hsl⟩
+      · exact hin
+    · rcases List.mem_singleton.mp a with rfl
+      simp only at hon ⊢
+      rw [he] at hon
+      simp only [hon, ↓reduceIte]
+      exact List.mem_append.mpr (Or.inr List.mem_cons_self)
 
 
-/-- removing rows together with the index entries of their texts (the intended deletion) -/
+/-- removing rows together with the index entries of their texts and their document records (the repaired
+    deletion: a 'delete' for each row that has a document record) -/
 theorem removeRows_inv {s : Site} (h : SInv s) (gone : List Row) (hg : ∀ r, r ∈ gone → r ∈ s.rows)
     (keep : Row → Bool) (hk : ∀ r, r ∈ s.rows → (keep r = false ↔ r ∈ gone)) :
     SInv { s with rows := s.rows.filter keep,
-                  idx := gone.foldl (fun i r => idxDel r.slot r.text i) s.idx } := by
-  obtain ⟨h0, h1, h2, h3⟩ := h
+                  idx := gone.foldl (fun i r => dropEntries s.docs r i) s.idx,
+                  docs := s.docs.filter fun x => !(gone.any fun r => r.slot = x) } := by
+  obtain ⟨h0, h1, h2, h3, h4⟩ := h
   have hfold : ∀ (g : List Row) (i : List (Slot × Word)) (p : Slot × Word),
-      p ∈ g.foldl (fun i r => idxDel r.slot r.text i) i ↔
-        p ∈ i ∧ ∀ r, r ∈ g → ¬(p.1 = r.slot ∧ p.2 ∈ r.text) := by
+      p ∈ g.foldl (fun i r => dropEntries s.docs r i) i ↔
+        p ∈ i ∧ ∀ r, r ∈ g → s.docs.contains r.slot = true → ¬(p.1 = r.slot ∧ p.2 ∈ r.text) := by
     intro g
     induction g with
     | nil => intro i p; simp
     | cons x xs ih =>
       intro i p
       simp only [List.foldl_cons]
-      rw [ih, mem_idxDel]
-      constructor
-      · rintro ⟨⟨a, b⟩, c⟩
-        refine ⟨a, ?_⟩
-        intro r hr
-        rcases List.mem_cons.mp hr with h' | h'
-        · subst h'; exact b
-        · exact c r h'
-      · rintro ⟨a, b⟩
-        exact ⟨⟨a, b x List.mem_cons_self⟩, fun r hr => b r (List.mem_cons_of_mem _ hr)⟩
-  refine ⟨?_, ?_, ?_, ?_⟩
+      rw [ih]
+      unfold dropEntries
+      by_cases hx : s.docs.contains x.slot = true
+      · simp only [hx, ↓reduceIte]
+        rw [mem_idxDel]
+        constructor
+        · rintro ⟨⟨a, b⟩, c⟩
+          refine ⟨a, ?_⟩
+          intro r hr hd
+          rcases List.mem_cons.mp hr with h' | h'
+          · subst h'; exact b
+          · exact c r h' hd
+        · rintro ⟨a, b⟩
+          exact ⟨⟨a, b x List.mem_cons_self hx⟩, fun r hr hd => b r (List.mem_cons_of_mem _ hr) hd⟩
+      · simp only [hx]
+        constructor
+        · rintro ⟨a, c⟩
+          refine ⟨a, ?_⟩
+          intro r hr hd
+          rcases List.mem_cons.mp hr with h' | h'
+          · subst h'; exact absurd hd hx
+          · exact c r h' hd
+        · rintro ⟨a, b⟩
+          exact ⟨a, fun r hr hd => b r (List.mem_cons_of_mem _ hr) hd⟩
+  refine ⟨?_, ?_, ?_, ?_, ?_⟩
   · exact (List.Sublist.map _ List.filter_sublist).nodup h0
   · intro r1 hr1 r2 hr2 hs
     exact h1 r1 (List.mem_filter.mp hr1).1 r2 (List.mem_filter.mp hr2).1 hs
@@ -331,19 +387,31 @@ theorem removeRows_inv {s : Site} (h : SInv s) (gone : List Row) (hg : ∀ r, r 
     | true => rfl
     | false =>
       have := (hk r hr).mp hkr
-      exact absurd ⟨a.symm, c⟩ (hno r this)
+      exact absurd ⟨a.symm, c⟩ (hno r this (List.contains_iff_mem.mpr (h4 r hr b)))
   · intro r hr hon w hw
     obtain ⟨hr', hkeep⟩ := List.mem_filter.mp hr
     refine (hfold gone s.idx (r.slot, w)).mpr ⟨h3 r hr' hon w hw, ?_⟩
-    intro g hgm ⟨hs, _⟩
+    intro g hgm _ ⟨hs, _⟩
     have : r = g := h1 r hr' g (hg g hgm) hs
     subst this
     have := (hk r hr').mpr hgm
     rw [this] at hkeep
     cases hkeep
+  · intro r hr hon
+    obtain ⟨hr', hkeep⟩ := List.mem_filter.mp hr
+    apply List.mem_filter.mpr
+    refine ⟨h4 r hr' hon, ?_⟩
+    simp only [Bool.not_eq_true', List.any_eq_false, decide_eq_true_eq]
+    intro g hgm hs
+    have : g = r := h1 g (hg g hgm) r hr' hs
+    subst this
+    have := (hk g hr').mpr hgm
+    rw [this] at hkeep
+    cases hkeep
 
 theorem del_inv {s : Site} (h : SInv s) (old : Row) (ho : old ∈ s.rows) :
-    SInv { s with rows := eraseRow old.n s.rows, idx := idxDel old.slot old.text s.idx } := by
+    SInv { s with rows := eraseRow old.n s.rows, idx := dropEntries s.docs old s.idx,
+                  docs := docDel old.slot s.docs } := by
   have := removeRows_inv h [old] (by intro r hr; rcases List.mem_singleton.mp hr with rfl; exact ho)
     (fun r => decide (r.n ≠ old.n)) (by
       intro r hr
@@ -351,14 +419,22 @@ theorem del_inv {s : Site} (h : SInv s) (old : Row) (ho : old ∈ s.rows) :
       constructor
       · intro hrn; exact nodup_map_inj h.1 hr ho hrn
       · intro e; rw [e])
-  exact this
+  refine sinv_of_eq this rfl rfl ?_ rfl
+  show docDel old.slot s.docs = s.docs.filter fun x => !([old].any fun r => r.slot = x)
+  unfold docDel
+  apply List.filter_congr
+  intro x _
+  by_cases hx : x = old.slot
+  · simp [hx]
+  · have : ¬ old.slot = x := fun e => hx e.symm
+    simp [hx, this]
 
 /-- the intended effect of a model version that changes index flags -/
 theorem toggle_inv {s : Site} (h : SInv s) (on : Ent → Bool) :
-    SInv { s with indexOn := on, idx := toggleIdx s on } := by
-  unfold toggleIdx
-  obtain ⟨h0, h1, h2, h3⟩ := h
-  refine ⟨h0, h1, ?_, ?_⟩
+    SInv { s with indexOn := on, idx := toggleIdx s on, docs := toggleDocs s on } := by
+  unfold toggleIdx toggleDocs
+  obtain ⟨h0, h1, h2, h3, h4⟩ := h
+  refine ⟨h0, h1, ?_, ?_, ?_⟩
   · intro p hp
     rcases List.mem_append.mp hp with hp | hp
     · obtain ⟨hin, hclean⟩ := List.mem_filter.mp hp
@@ -398,6 +474,37 @@ theorem toggle_inv {s : Site} (h : SInv s) (on : Ent → Bool) :
       apply List.mem_flatMap.mpr
       refine ⟨r, List.mem_filter.mpr ⟨hr, by simp [hon, hold]⟩, ?_⟩
       exact List.mem_map.mpr ⟨w, hw, rfl⟩
+  · intro r hr hon
+    show r.slot ∈ _ ++ _
+    change on r.ent = true at hon
+    cases hold : s.indexOn r.ent with
+    | true =>
+      apply List.mem_append.mpr; left
+      apply List.mem_filter.mpr
+      refine ⟨h4 r hr hold, ?_⟩
+      simp only [Bool.not_eq_true', List.any_eq_false, Bool.and_eq_true, decide_eq_true_eq, bne_iff_ne,
+        ne_eq, not_and, Decidable.not_not]
+      intro r' hr' hs
+      have : r' = r := h1 r' hr' r hr hs
+      subst this
+      rw [hold, hon]
+    | false =>
+      apply List.mem_append.mpr; right
+      exact List.mem_map.mpr ⟨r, List.mem_filter.mpr ⟨hr, by simp [hon, hold]⟩, rfl⟩
+
+/-- a model version that changes the flags only (no re-indexing) keeps the agreement when every row's entity
+    keeps its flag — i.e. when the entities whose flag changes have no row at the site -/
+theorem flagOnly_inv {s : Site} (h : SInv s) (on : Ent → Bool)
+    (hsafe : ∀ r, r ∈ s.rows → on r.ent = s.indexOn r.ent) : SInv { s with indexOn := on } := by
+  obtain ⟨h0, h1, h2, h3, h4⟩ := h
+  refine ⟨h0, h1, ?_, ?_, ?_⟩
+  · intro p hp
+    obtain ⟨r, hr, a, b, c⟩ := h2 p hp
+    exact ⟨r, hr, a, (hsafe r hr).trans b, c⟩
+  · intro r hr hon w hw
+    exact h3 r hr ((hsafe r hr).symm.trans hon) w hw
+  · intro r hr hon
+    exact h4 r hr ((hsafe r hr).symm.trans hon)
 
 
 /-! ### ingestion (intended behaviour: indexed like a local write) -/
@@ -429,21 +536,32 @@ theorem compat_self {s : Site} (h : SInv s) : Compat s.rows s.rows := by
   intro a ha b hb hn
   rw [nodup_map_inj h.1 ha hb hn]
 
-theorem pullTombs_inv (d : Defects) (hd : d.deleteLeavesIndex = false) (src : Site) (e : Ent) {dst : Site}
-    (h : SInv dst) :
+/-- without tombstones at the source nothing goes -/
+theorem pullTombs_noTombs (d : Defects) (src : Site) (e : Ent) (dst : Site) (hn : src.tombs = []) :
+    (pullTombs d src e dst).rows = dst.rows ∧ (pullTombs d src e dst).idx = dst.idx ∧
+      (pullTombs d src e dst).docs = dst.docs ∧ (pullTombs d src e dst).indexOn = dst.indexOn ∧
+      (pullTombs d src e dst).tombs = dst.tombs := by
+  unfold pullTombs
+  simp [hn]
+
+theorem pullTombs_inv (d : Defects) (src : Site) (hd : d.deleteLeavesIndex = false ∨ src.tombs = []) (e : Ent)
+    {dst : Site} (h : SInv dst) :
     SInv (pullTombs d src e dst) ∧ (pullTombs d src e dst).indexOn = dst.indexOn ∧
       (∀ x, x ∈ (pullTombs d src e dst).rows → x ∈ dst.rows) := by
-  unfold pullTombs
-  refine ⟨?_, rfl, fun x hx => (List.mem_filter.mp hx).1⟩
-  simp only [hd, Bool.false_eq_true, ↓reduceIte]
-  have := removeRows_inv h
-    (dst.rows.filter fun r => (src.tombs.filter fun t => t.ent = e).any fun t => t.n = r.n)
-    (fun r hr => (List.mem_filter.mp hr).1)
-    (fun r => !((src.tombs.filter fun t => t.ent = e).any fun t => t.n = r.n))
-    (by
-      intro r hr
-      simp only [Bool.not_eq_false', List.mem_filter, hr, true_and])
-  exact this
+  rcases hd with hd | hn
+  · unfold pullTombs
+    refine ⟨?_, rfl, fun x hx => (List.mem_filter.mp hx).1⟩
+    simp only [hd, Bool.false_eq_true, ↓reduceIte]
+    have := removeRows_inv h
+      (dst.rows.filter fun r => (src.tombs.filter fun t => t.ent = e).any fun t => t.n = r.n)
+      (fun r hr => (List.mem_filter.mp hr).1)
+      (fun r => !((src.tombs.filter fun t => t.ent = e).any fun t => t.n = r.n))
+      (by
+        intro r hr
+        simp only [Bool.not_eq_false', List.mem_filter, hr, true_and])
+    exact this
+  · obtain ⟨a, b, c, f, _⟩ := pullTombs_noTombs d src e dst hn
+    exact ⟨sinv_of_eq h a b c f, f, fun x hx => by rw [a] at hx; exact hx⟩
 
 theorem ingestRow_inv (d : Defects) (hd : d.ingestUnindexed = false) {dst : Site} (h : SInv dst) (r : Row)
     (hk : ∀ a, a ∈ dst.rows → a.n = r.n → a.ent = r.ent) :
@@ -455,10 +573,7 @@ theorem ingestRow_inv (d : Defects) (hd : d.ingestUnindexed = false) {dst : Site
   · rename_i old hf
     obtain ⟨ho, hon⟩ := findRow_some hf
     have he : r.ent = old.ent := (hk old ho hon).symm
-    have := writeUpdate_inv h old r ho hon.symm he (if old.text.isEmpty then none else some old.text) (by
-      by_cases hem : old.text.isEmpty = true
-      · right; simp only [hem, ↓reduceIte, true_and]; exact List.isEmpty_iff.mp hem
-      · left; simp [hem])
+    have := writeUpdate_inv h old r ho hon.symm he (some old.text) (Or.inl rfl)
     rw [he]
     refine ⟨this, rfl, ?_⟩
     intro x hx
@@ -563,8 +678,9 @@ theorem pullRows_inv (d : Defects) (hd : d.ingestUnindexed = false) (src : Site)
   · exact ⟨y, List.mem_append.mpr (Or.inl h'), e1, e2⟩
   · exact ⟨y, List.mem_append.mpr (Or.inr (hsub y h')), e1, e2⟩
 
-theorem pullOp_inv (d : Defects) (hd1 : d.deleteLeavesIndex = false) (hd2 : d.ingestUnindexed = false)
-    (src : Site) (hs : SInv src) {dst : Site} (h : SInv dst) (hc : Compat dst.rows src.rows) :
+theorem pullOp_inv (d : Defects) (src : Site) (hd1 : d.deleteLeavesIndex = false ∨ src.tombs = [])
+    (hd2 : d.ingestUnindexed = false)
+    (hs : SInv src) {dst : Site} (h : SInv dst) (hc : Compat dst.rows src.rows) :
     SInv (pullOp d src dst) ∧ (pullOp d src dst).indexOn = dst.indexOn ∧
       Keys (pullOp d src dst).rows (dst.rows ++ src.rows) := by
   unfold pullOp
@@ -579,7 +695,7 @@ theorem pullOp_inv (d : Defects) (hd1 : d.deleteLeavesIndex = false) (hd2 : d.in
     | cons e rest ih =>
       intro acc a b c
       simp only [List.foldl_cons]
-      obtain ⟨t1, t2, t3⟩ := pullTombs_inv d hd1 src e a
+      obtain ⟨t1, t2, t3⟩ := pullTombs_inv d src hd1 e a
       have hcomp : Compat (dst.rows ++ src.rows) src.rows := by
         intro x hx y hy hn
         rcases List.mem_append.mp hx with h' | h'
